@@ -922,8 +922,16 @@ StepRet(h, e) ==
                  ELSE CheckKF(h, ~(e.r.k = "err" /\ e.r.v = "BufferTooSmall"), "C19",
                               "a DISCONNECT with legal properties was refused", "D11c", ~inval)
             ELSE h
-      hb == IF o.name # "conn" /\ ha.up /\ DeathTrigger(h, e)
-            THEN [ha EXCEPT !.dead = TRUE] ELSE ha
+      \* C01 / C13: a graceful disconnect that returns Ok has put one whole DISCONNECT packet at the end of
+      \* the stream -- not into the middle of a packet an earlier cancelled call left half-written
+      hgd == IF o.name = "disconnect" /\ ~o.deadcall /\ e.r.k = "ok" /\ h.taint = 0 /\ ~h.dcan
+                /\ ~(h.wtail = << >> /\ h.wdisc)
+             THEN LET x == Viol(ha, "C01", "disconnect() returned Ok but the stream does not end with a whole DISCONNECT packet")
+                  IN IF h.cmid THEN Viol(Tick(x, "C13"), "C13", "the packet a cancelled operation left half-written was corrupted by what followed")
+                     ELSE x
+             ELSE ha
+      hb == IF o.name # "conn" /\ hgd.up /\ DeathTrigger(h, e)
+            THEN [hgd EXCEPT !.dead = TRUE] ELSE hgd
       hc == ObsChecks(hb, e.obs)
   IN [hc EXCEPT !.op = NoOp,
                 !.sum.res = Append(@, << o.name, e.r.k, e.r.v, e.r.code >>),
